@@ -16,12 +16,12 @@ import os
 from .. import common, modes, sched
 
 G = {
-    "g1": 'r = { ASCII_HEX_DIGIT+ ~ "x" ~ (NEWLINE | UPPERCASE_LETTER)? }\ns = { ("a" | "b" | ASCII_ALPHA)+ ~ "!" }\nt = _{ "a" | "ab" }\n',
-    "g2": 'r = { ASCII_ALPHA ~ ASCII_HEX_DIGIT* ~ NEWLINE }\ns = { "q" ~ UPPERCASE_LETTER ~ t }\nt = _{ ASCII_DIGIT | "z" }\n',
+    "g1": 'r = { ASCII_HEX_DIGIT+ ~ "x" ~ (NEWLINE | UPPERCASE_LETTER)? }\ns = { ("a" | "b" | ASCII_ALPHA)+ ~ "!" }\nt = _{ "a" | "ab" }\nu = { "a" | !"b" ~ ANY | &"c" ~ "cd" }\n',
+    "g2": 'r = { ASCII_ALPHA ~ ASCII_HEX_DIGIT* ~ NEWLINE }\ns = { "q" ~ UPPERCASE_LETTER ~ t }\nt = _{ ASCII_DIGIT | "z" }\nu = { ("c" | !"d" ~ ANY)* ~ "d" }\n',
 }
 PROBES = {
-    "g1": [("r", "1fx\n"), ("r", "zx"), ("r", "1f"), ("s", "abZ!"), ("s", "ab1"), ("s", "")],
-    "g2": [("r", "aF0\n"), ("r", "aG"), ("r", "1"), ("s", "qQ7"), ("s", "qq"), ("s", "q")],
+    "g1": [("r", "1fx\n"), ("r", "zx"), ("r", "1f"), ("s", "abZ!"), ("s", "ab1"), ("s", ""), ("u", "b"), ("u", "x"), ("u", "c")],
+    "g2": [("r", "aF0\n"), ("r", "aG"), ("r", "1"), ("s", "qQ7"), ("s", "qq"), ("s", "q"), ("u", "xd"), ("u", "xc"), ("u", "")],
 }
 KINDS = ("U", "O", "C")
 BOUNDS = {"quick": {"depth": 3, "preemptions": 1, "free_iterations": 200}, "thorough": {"depth": 4, "preemptions": 2, "free_iterations": 2000}}
@@ -39,7 +39,7 @@ def make(kind, g):
 
 def ops_menu():
     ops = [("mk", k, g) for g in G for k in KINDS]
-    ops += [("gen", g) for g in G] + [("ok", g) for g in G] + [("bad", g) for g in G]
+    ops += [("gen", g) for g in G] + [("ok", g) for g in G] + [("bad", g) for g in G] + [("neg", g) for g in G]
     return ops
 
 
@@ -80,6 +80,9 @@ def replay(history):
             modes.observe(last[op[1]][1], *PROBES[op[1]][0])
         elif op[0] == "bad":
             modes.observe(last[op[1]][1], *PROBES[op[1]][1])
+        elif op[0] == "neg":
+            # a parse whose furthest failure is recorded by a negative predicate after an ordinary one at the same position
+            modes.observe(last[op[1]][1], *PROBES[op[1]][6])
     return objs
 
 
@@ -273,7 +276,7 @@ def run(tier: str) -> int:
             rep.known(fd)
             continue
         if seen < 12:
-            rep.violation({"family": "histories" if v.get("ops") else "schedules", **v})
+            rep.violation({"family": "histories" if "probe_object" in v else "schedules", **v})
         else:
             rep.violations.append(v)
         seen += 1
@@ -290,8 +293,8 @@ def run(tier: str) -> int:
         "traces_validated_against_impl": len(histories) + executions,
         "evaluations": len(histories) + executions,
         "distinct_nontrivial": len(histories) + executions,
-        "rule": "(a) every history over 12 operations - create an unoptimised / default-optimised / custom-pass parser for g1 or g2, generate+import a module from the latest parser of a grammar, a succeeding and a failing parse on it - up to the depth bound, "
-                "each replayed from scratch in a forked pristine process; then every object created in the history, and fresh parsers/modules of every kind created after it, are probed with 6 calls per grammar (succeeding and failing) and each probe "
+        "rule": "(a) every history over 14 operations - create an unoptimised / default-optimised / custom-pass parser for g1 or g2, generate+import a module from the latest parser of a grammar, a succeeding parse, a failing parse, and a parse whose furthest failure comes from a negative predicate - up to the depth bound, "
+                "each replayed from scratch in a forked pristine process; then every object created in the history, and fresh parsers/modules of every kind created after it, are probed with 9 calls per grammar (succeeding and failing, incl. predicate failures) and each probe "
                 "(tree, or furthest_pos + expected/unexpected sets) must equal the one obtained in a process whose only history is the creation of that one parser. g1 and g2 use the same built-ins (ASCII_HEX_DIGIT, ASCII_ALPHA, NEWLINE, a Unicode property), the same rule names with different bodies and squashable choices. "
                 "states = distinct (global-state fingerprint, verdict) pairs - counted, never used to prune. "
                 "(b) two real threads sharing one parser / generated module under a cooperative scheduler that owns every line-level switch point in pest code: every schedule with at most the stated number of preemptions (both initial threads); "
